@@ -6,8 +6,9 @@
 // C04_common.hpp), containers of eithers / of functions have length n <= 3 (param), either::loop is run against an
 // arbitrary result stream (uninterpreted in the step number) that fails within the first 4 (thorough: 7) steps;
 // thorough tier: containers of length 4 / 5.
-// Outside the claim: try_call when the function throws (catch handlers are not executed by the engine: a throw ends
-// the path), either::to_exception (throws), either::output (iostream), payloads with non-trivial copy/move (C05).
+// try_call with really thrown exceptions (exact / derived / unrelated type, throwing translation function): see
+// C04_try_call.cpp.  Outside the claim: either::to_exception (throws), either::output (iostream), payloads with
+// non-trivial copy/move (C05).
 //@property C04
 #include "C04_common.hpp"
 #include <fcppt/unit.hpp>
